@@ -207,7 +207,8 @@ fn probe(re: &Regex, pat: &str, dflt: bool, text: &str, p: &str) -> String {
                     v.push("!WRAPPER:CaptureMatches::text/regex".to_string());
                 }
             }
-            for x in re.captures_iter(text) {
+            let mut it = re.captures_iter(text);
+            while let Some(x) = it.next() {
                 n += 1;
                 if n > text.len() + 5 {
                     v.push("RUNAWAY".to_string());
@@ -217,6 +218,17 @@ fn probe(re: &Regex, pat: &str, dflt: bool, text: &str, p: &str) -> String {
                     Ok(c) => v.push(caps_str(&c)),
                     Err(e) => {
                         v.push(format!("ERR:{}", error_kind(&e)));
+                        // fused after an error, like find_iter?
+                        let mut after_err = 0;
+                        while it.next().is_some() {
+                            after_err += 1;
+                            if after_err > 3 {
+                                break;
+                            }
+                        }
+                        if after_err > 0 {
+                            v.push(format!("AFTER_ERR:{}", after_err));
+                        }
                         break;
                     }
                 }
